@@ -28,7 +28,7 @@ ASSUMPTIONS = [
     'the ridge is existential over its admissible interval (1-D search); '
     'vacuous when the eigenvalue gap at the cut is below 1e-3 lambda_max']
 EXPECTED_PROBES = ['packed_root_checked', 'packed_padded', 'negative_rank',
-                   'packed_apply_checked']
+                   'packed_apply_checked', 'flagged_packed_applied']
 
 
 def generate(seed, idx, tier):
@@ -44,8 +44,19 @@ def generate(seed, idx, tier):
   cfg['block_size'] = pick(rng, [8, 16])
   cfg['start_preconditioning_step'] = pick(rng, [0, 0, 1])
   cfg['graft_type'] = pick(rng, [0, 0, 1, 2, 3])
+  fd = mode != 'sharded' and rng.random() < 0.25
+  if fd:
+    # packed sketches written by the frequent-directions root: the only place
+    # where the has-zeros flag is ever set
+    r = abs(r)
+    x64 = False
+    cfg['compression_rank'] = r
+    cfg['frequent_directions'] = True
+    cfg['statistics_compute_steps'] = cfg['preconditioning_compute_steps'] = \
+        pick(rng, [1, 1, 2])
+    cfg['precondtioner_type'] = 1
   cfg = common.constrain(cfg, mode, False, x64)
-  cfg['reuse_preconditioner'] = False
+  cfg['reuse_preconditioner'] = fd
   tree = ds_gen.fix_tree_for_config(rng, ds_gen.gen_tree(rng), cfg)
   if mode == 'sharded':
     n = shp.tree_layout(tree, cfg)['n_stats']
@@ -53,7 +64,14 @@ def generate(seed, idx, tier):
       mesh = 1
   T = rng.randrange(5, 14) if tier == 'quick' else rng.randrange(8, 31)
   ops = common.gen_history(rng, cfg, len(tree), T, 0.0, scale_jumps=0.3)
-  return {'system': 'ds', 'class': f"{mode}_r{'neg' if r < 0 else 'pos'}",
+  if fd:
+    # zero / low-rank ticks make deflated eigenvalues and the tail exactly zero
+    for op in ops:
+      if op['op'] == 'STEP' and rng.random() < 0.4:
+        op['kind'] = pick(rng, ['zero', 'lowrank', 'onehot_leaf'])
+        op['rank'] = 1
+        op['hot'] = rng.randrange(len(tree))
+  return {'system': 'ds', 'class': f"{mode}_{'fd' if fd else 'r' + ('neg' if r < 0 else 'pos')}",
           'x64': x64, 'mode': mode, 'D': D, 'mesh': mesh, 'config': cfg,
           'tree': tree, 'lr': ds_gen.gen_lr(rng),
           'param_seed': rng.randrange(1000), 'ops': ops,
@@ -88,6 +106,16 @@ def run(plan):
     rel = bool(cfg.get('relative_matrix_epsilon', True))
     if r < 0:
       ctx.probe('negative_rank')
+    if cfg.get('frequent_directions'):
+      # sketches are checked by C09; here only the application path matters.
+      # Probe: was a flagged (has-zeros) packed preconditioner applied?
+      for i, leaf in enumerate(view.layout['leaves']):
+        for j, (_, _, d) in enumerate(leaf['stats']):
+          if shp.precond_dim(r, d) != d:
+            X = view.precond(new, i, j)
+            if ref.dense_from_packed(X, r) is None:
+              ctx.probe('flagged_packed_applied')
+      return
     for i, leaf in enumerate(view.layout['leaves']):
       if i in rec['poisoned']:
         continue
